@@ -49,6 +49,7 @@ var inputs = map[string]string{
 	"lalr":      "grammar calc;\nstart = start \"+\" start | \"i\";\n",
 	"keyword":   "grammar func;\nstart = \"a\";\n",
 	"valid3":    bigSpec(),
+	"valid4":    "grammar empty;\nstart = ;\nx = start | ;\n", // an accepted specification without any terminal
 }
 
 // bigSpec is a specification with many keywords: its lexer.go is the largest file of the package.
@@ -190,7 +191,7 @@ func checkConfig(c Config) (summary string, err error) {
 	default:
 		_ = os.WriteFile(inPath, []byte(src), 0o644)
 	}
-	validInput = validInput && (c.Input == "valid" || c.Input == "valid2" || c.Input == "valid3" || c.Input == "keyword")
+	validInput = validInput && (c.Input == "valid" || c.Input == "valid2" || c.Input == "valid3" || c.Input == "valid4" || c.Input == "keyword")
 	// output location
 	outDir := work
 	var args []string
@@ -219,6 +220,8 @@ func checkConfig(c Config) (summary string, err error) {
 		switch c.Input {
 		case "valid", "syntax", "lexical", "semantic", "pattern", "tconflict", "lalr":
 			effective = "calc"
+		case "valid4":
+			effective = "empty"
 		case "valid3":
 			effective = "big"
 		case "valid2":
@@ -419,11 +422,11 @@ func checkConfig(c Config) (summary string, err error) {
 
 var hasPrlimit = func() bool { _, err := exec.LookPath("prlimit"); return err == nil }()
 
-var names = []string{"pkg", "P2", "über", "x_1", "func", "package", "go", "string", "nil", "len", "_", "9x", "a-b", "a b", "a/b", "../x", "pkg/", "./pkg", "", "calc", "Type", "__", "v\u00b2", "part\u2163", "x\u0663", "\u0663x", "a\u0301", "\u00e9t\u00e9"}
+var names = []string{"pkg", "P2", "über", "x_1", "func", "package", "go", "string", "nil", "len", "_", "9x", "a-b", "a b", "a/b", "../x", "pkg/", "./pkg", "", "calc", "Type", "__", "v\u00b2", "part\u2163", "x\u0663", "\u0663x", "a\u0301", "\u00e9t\u00e9", ".", "..", "../otherpkg", "./otherpkg", "otherpkg/.."}
 
 func genConfig(t *rapid.T) Config {
 	c := Config{
-		Input:    rapid.SampledFrom([]string{"valid", "valid", "valid3", "valid3", "valid2", "syntax", "lexical", "semantic", "pattern", "tconflict", "lalr", "keyword", "missing", "directory"}).Draw(t, "input"),
+		Input:    rapid.SampledFrom([]string{"valid", "valid", "valid3", "valid3", "valid2", "valid4", "syntax", "lexical", "semantic", "pattern", "tconflict", "lalr", "keyword", "missing", "directory"}).Draw(t, "input"),
 		OutFlag:  rapid.SampledFrom([]string{"", "=", " ", "="}).Draw(t, "outFlag"),
 		OutState: rapid.SampledFrom([]string{"dir", "dir", "dir", "missing", "file"}).Draw(t, "outState"),
 		Pre:      rapid.SampledFrom([]string{"none", "none", "dir", "dirwithfiles", "file", "symlinkdir", "dangling", "unrelated"}).Draw(t, "pre"),
@@ -474,7 +477,7 @@ func TestConfigurations(t *testing.T) {
 	rec.Check(t, 500, 20000, func(t *rapid.T) {
 		c := genConfig(t)
 		summary, err := checkConfig(c)
-		nt := c.Pre != "none" || !(c.Input == "valid" || c.Input == "valid2" || c.Input == "valid3")
+		nt := c.Pre != "none" || !(c.Input == "valid" || c.Input == "valid2" || c.Input == "valid3" || c.Input == "valid4")
 		cls := []string{"input_" + c.Input, "pre_" + c.Pre, "name_" + nameClass(c.Name), summary}
 		if c.OutFlag != "" {
 			cls = append(cls, "out_"+c.OutState)
